@@ -35,6 +35,11 @@ def _alphabet(v, d, model):
                     ops.append({"op": "path_to_dict", "path": p, "config": c2})
                     ops.append({"op": "path_to_dict", "path": p, "config": c2, "kw": "all"})
                     ops.append({"op": "path_to_dict", "path": p, "config": c2, "kw": "none"})
+                # one argument only, spelled by keyword or by position: a key built from VALUES alone would
+                # confuse path_to_dict(p, config='local') with path_to_dict(p, 'local') (= _type)
+                ops.append({"op": "path_to_dict", "path": p, "config": c, "kw": "cfgonly"})
+                ops.append({"op": "path_to_dict", "path": p, "type": c, "kw": "typeonly"})
+                ops.append({"op": "path_to_dict", "path": p, "type": label, "kw": "typeonly"})
                 ops.append({"op": "path_to_dict", "path": p, "type": label, "config": c})
                 ops.append({"op": "path_to_dict", "path": p, "type": rng.choice(v.labels), "config": c})
         ops.append({"op": "sid_call", "from": {"s": s}, "m": "path"})
@@ -49,13 +54,22 @@ def _alphabet(v, d, model):
         ops.append({"op": "sid_call", "from": {"obj": {"s": forced + ":" + s}}, "m": "uri"})
     sg = gen.SearchGen(v)
     L, leaves = gen.universe(v)
-    for _ in range(6):
+    for it in range(6):
         srch = sg.search(base=rng.choice(leaves), allow_gt=rng.random() < 0.4, malformed=0.0)
+        if it < 2:      # '**' below a prefix: the search on which both flags change the answer
+            lab, flds = rng.choice(leaves)
+            segs = [val for _, val in flds]
+            srch = "/".join(segs[:rng.randint(2, max(2, len(segs) - 2))]) + "/**"
         for u in (False, True):
             for x in (False, True):
                 ops.append({"op": "unfold_search", "s": srch, "u": u, "x": x})
                 ops.append({"op": "unfold_search", "s": srch, "u": u, "x": x, "positional": True})
         ops.append({"op": "unfold_search", "s": srch})
+        # a single flag, by keyword or by position (the same VALUE in another parameter's slot)
+        ops.append({"op": "unfold_search", "s": srch, "u": True})
+        ops.append({"op": "unfold_search", "s": srch, "x": True})
+        ops.append({"op": "unfold_search", "s": srch, "u": True, "positional": 1})
+        ops.append({"op": "unfold_search", "s": srch, "u": False, "x": True})
         ops.append({"op": "simple_typing", "s": srch.split("?")[0]}) if "**" not in srch and "," not in srch else None
         ops.append({"op": "find_list", "l": L, "s": srch, "m": "find"})
         ops.append({"op": "find_partial", "l": L, "s": srch})
@@ -506,3 +520,104 @@ def replay_C19L(d, inp):
 
 SPECIAL["C19L"] = oracle_C19L
 REPLAY["C19L"] = replay_C19L
+
+
+# ------------------------------------------------------------------------------------------ C19 (path configuration loader)
+
+def _c19p_spec(d, rng):
+    """a path configuration for the shipped sid configuration: path templates = a root + the RAW sid
+    templates (their find-strings are what the sid configuration's key_patterns rewrite), with its OWN
+    key_patterns whose selectors differ from the sid configuration's"""
+    ex = core.run_model(d, [{"op": "extrapolate_templates", "sep": d["conf"]["sid"]["sep"], "templates": d["raw"]["sid_templates"],
+                             "to_extrapolate": d["raw"]["to_extrapolate"]}])[0].get("ok") or d["raw"]["sid_templates"]
+    pool = [list(p) for p in ex]
+    chosen = rng.sample(pool, min(len(pool), rng.randint(3, 8)))
+    templates = [[l, "/gen/root/" + t] for l, t in chosen]
+    keys = []
+    for _, t in templates:
+        for part in t.split("/"):
+            if part.startswith("{"):
+                k = part.split(":")[0].strip("{}")
+                if k not in keys:
+                    keys.append(k)
+    sep = d["conf"]["sid"]["sep"]
+    sels = [sep + l.split(sep)[-1] for l, _ in templates if sep in l] + [l for l, _ in templates] + ["zz", "shot", "asset" + sep]
+    kp = {}
+    for sel in rng.sample(sels, min(len(sels), rng.randint(1, 3))):
+        reps = {}
+        for _ in range(rng.randint(1, 2)):
+            k = rng.choice(keys)
+            reps["{%s}" % k] = "{%s:(%s|\\*|\\>)}" % (k, rng.choice(["A|B", "v\\d\\d\\d", "X"]))
+        kp[sel] = reps
+    return {"templates": templates, "key_patterns": [[k, [[a, b] for a, b in val.items()]] for k, val in kp.items()]}
+
+
+def _c19p_load(spec):
+    st = _stage.stage(tag="c19p")
+    with open(os.path.join(st["conf"], "c19_gen_path_conf.py"), "w") as f:
+        f.write("# generated path configuration (C19 path loader check)\n")
+        f.write("path_templates = %r\n" % {k: val for k, val in spec["templates"]})
+        f.write("key_patterns = %r\n" % {k: {a: b for a, b in val} for k, val in spec["key_patterns"]})
+        f.write("path_defaults = {}\npath_mapping = {}\nsearch_path_mapping = {}\nsidkeys_to_extrakeys = {}\nextrakeys_to_sidkeys = {}\n")
+    code = ("import json, sys\nimport spil\nfrom spil.sid.pathops.pathconfig import PathConfig\n"
+            "pc = PathConfig('c19gen', 'c19_gen_path_conf')\n"
+            "sys.stdout.write('@@' + json.dumps([[k, v] for k, v in pc.path_templates.items()]) + '\\n')\n")
+    p = subprocess.run([_stage.PY, "-W", "ignore", "-c", code], env=st["env"], capture_output=True, text=True, timeout=120)
+    import shutil
+    shutil.rmtree(st["dir"], ignore_errors=True)
+    for line in p.stdout.splitlines():
+        if line.startswith("@@"):
+            return json.loads(line[2:]), None
+    return None, (p.stderr or p.stdout)[-400:]
+
+
+def _c19p_judge(spec, loaded, expected):
+    if loaded is None or expected is None or [list(p) for p in loaded] == [list(p) for p in expected]:
+        return []
+    out = []
+    sels = [k for k, _ in spec["key_patterns"]]
+    got, want, plain = dict(map(tuple, loaded)), dict(map(tuple, expected)), dict(map(tuple, spec["templates"]))
+    for k in want:
+        if got.get(k) != want[k]:
+            matching = [s for s in sels if s in k]
+            out.append("path type %r matches %s of the path configuration %r: its loaded template is %r, configured %r, expected %r"
+                       % (k, ("the selectors %r" % matching) if matching else "NO selector", sels, got.get(k), plain.get(k), want[k]))
+    return out or ["loaded path templates %r differ from %r" % (loaded, expected)]
+
+
+def oracle_C19P(run, n):
+    """PathConfig applies ITS key_patterns, selector by selector, to its path templates and nothing else"""
+    fails = []
+    stats = collections.Counter()
+    rng = random.Random("%s/C19P" % run.seed)
+    specs = [_c19p_spec(run.d, rng) for _ in range(n)]
+    with cf.ThreadPoolExecutor(max_workers=12) as ex:
+        loaded = list(ex.map(_c19p_load, specs))
+    exp = core.run_model(run.d, [{"op": "pattern_replacing", "templates": sp["templates"], "key_patterns": sp["key_patterns"]} for sp in specs])
+    for sp, (l, err), e in zip(specs, loaded, exp):
+        stats["configurations"] += 1
+        if l is None:
+            stats["loader_refused"] += 1
+            run.notes.append("C19P: the path loader refused a generated configuration: %s" % (err or "")[-200:])
+            continue
+        f = _c19p_judge(sp, l, e.get("ok"))
+        if f:
+            stats["failing"] += 1
+            fails.append(("C19P", sp, f))
+        else:
+            run.nontrivial.add(core.digest(sp))
+    run.cov["evaluations"] += len(specs)
+    run.cov["oracles"]["C19P"] = dict(stats)
+    return fails
+
+
+def replay_C19P(d, inp):
+    l, err = _c19p_load(inp)
+    if l is None:
+        return ["the path loader refuses the configuration: %s" % err]
+    e = core.run_model(d, [{"op": "pattern_replacing", "templates": inp["templates"], "key_patterns": inp["key_patterns"]}])[0]
+    return _c19p_judge(inp, l, e.get("ok"))
+
+
+SPECIAL["C19P"] = oracle_C19P
+REPLAY["C19P"] = replay_C19P
